@@ -76,6 +76,10 @@ func timestamps() []time.Time {
 
 func main() {
 	flag.Parse()
+	if v, ok := ev.ReplayRequested(); ok {
+		fmt.Printf("  this check enumerates inputs; the replay artefact names the failing input directly: %v\n", v.Replay)
+		return
+	}
 	r := ev.Start("C15")
 	defer r.RecoverMain()
 	defer world.Cleanup()
